@@ -280,7 +280,12 @@ class ResetAttrMethod(AttrMethodDescriptor):
         if not _inplace:
             self = copy.deepcopy(self)
         with unfrozen(self, only_if=not _inplace):
-            delattr(self, attr_spec.name)
+            try:
+                delattr(self, attr_spec.name)
+            except AttributeError:
+                # Nothing to reset (no value and no default).
+                if attr_spec.name in getattr(self, "__dict__", {}):
+                    raise
         return self
 
     def build_method(self) -> Callable:
